@@ -276,11 +276,33 @@ func gArg(r *rng, depth int, fns []string) string {
 
 var gFuncs []string
 
+// gSep: what stands between two arguments or operands: a comma, and now and then only a blank, a line break, a comment or a token
+// that means nothing there - the parser takes all of these, and only the blank keeps `1 2` from being `12`
+func gSep(r *rng) string {
+	switch r.Intn(14) {
+	case 0:
+		return " "
+	case 1:
+		return "\n"
+	case 2:
+		return "/*c*/"
+	case 3:
+		return " , "
+	case 4:
+		return ";"
+	}
+	return ","
+}
+
 func gPath(r *rng, root string, depth int, pred bool) string {
 	var sb strings.Builder
 	sb.WriteString(root)
 	nk := r.Intn(4)
 	for i := 0; i < nk; i++ {
+		if i > 0 && r.Intn(16) == 0 {
+			sb.WriteString(" " + r.Pick(gKeys)) // a key after a blank instead of a dot
+			continue
+		}
 		sb.WriteString("." + r.Pick(gKeys))
 	}
 	if depth > 0 && r.Intn(4) == 0 {
@@ -303,7 +325,7 @@ func gPath(r *rng, root string, depth int, pred bool) string {
 		for j := 0; j < na; j++ {
 			args = append(args, gArg(r, depth, gFuncs))
 		}
-		sb.WriteString("." + fn + "(" + strings.Join(args, ",") + ")")
+		sb.WriteString("." + fn + "(" + strings.Join(args, gSep(r)) + ")")
 		if r.Intn(7) == 0 { // a mark directly after a call
 			sb.WriteString("?")
 		}
@@ -333,7 +355,7 @@ func gBody(r *rng, root string, depth int) string {
 			ps = append(ps, gPath(r, root, depth, true))
 		}
 	}
-	return strings.Join(ps, ",")
+	return strings.Join(ps, gSep(r))
 }
 func gGroup(r *rng, root string, depth int) string { return "{" + gBody(r, root, depth) + "}" }
 func gFilter(r *rng, depth int) string             { return "[" + gBody(r, "@", depth) + "]" }
